@@ -37,6 +37,7 @@ type PropSpec struct {
 type KnownFinding struct {
 	Property   string `json:"property"`
 	Obligation string `json:"obligation"` // stable obligation id (no line numbers)
+	Pattern    string `json:"obligation_pattern,omitempty"` // or: anchored regexp over stable ids (one defect showing in many generated units)
 	What       string `json:"what"`
 	Status     string `json:"status"` // "open" | "fixed"
 	Commit     string `json:"commit,omitempty"`
@@ -218,11 +219,20 @@ func checkMain(args []string) int {
 			sid := stableID(o.Name)
 			isKnown := false
 			for _, k := range known {
-				if k.Status == "open" && k.Property == prop && k.Obligation == sid {
+				if k.Status != "open" || k.Property != prop {
+					continue
+				}
+				if k.Obligation != "" && k.Obligation == sid {
 					isKnown = true
 					if !knownHit[sid] {
 						knownHit[sid] = true
 						fmt.Printf("KNOWN-FINDING: property=%s %s: %s\n", prop, sid, k.What)
+					}
+				} else if k.Pattern != "" && matchWhole(k.Pattern, sid) {
+					isKnown = true
+					if !knownHit[k.Pattern] {
+						knownHit[k.Pattern] = true
+						fmt.Printf("KNOWN-FINDING: property=%s %s: %s\n", prop, k.Pattern, k.What)
 					}
 				}
 			}
@@ -462,4 +472,15 @@ func replayMain(path string) int {
 		return 1
 	}
 	return 0
+}
+
+var patCache = map[string]*regexp.Regexp{}
+
+func matchWhole(pat, s string) bool {
+	re, ok := patCache[pat]
+	if !ok {
+		re = regexp.MustCompile("^(?:" + pat + ")$")
+		patCache[pat] = re
+	}
+	return re.MatchString(s)
 }
